@@ -165,7 +165,8 @@ def compile_props(pid):
     axioms = []
     for block in re.findall(r"Axioms:\n((?:.+\n?)+?)(?=\n\S|\Z)", out):
         for m in re.finditer(r"^([A-Za-z0-9_.']+)\s*:", block, re.M):
-            axioms.append(m.group(1))
+            if m.group(1) != "Axioms":
+                axioms.append(m.group(1))
     return dict(ok=(rc == 0), log=out, theorems=theorems, axioms=sorted(set(axioms)), closed=closed)
 
 
